@@ -311,13 +311,24 @@ func buildReport(prop, tier string, runs []*FuncRun, results []*Result, cs *Cont
 		// a function under contract that cannot be translated is a broken check, not a pass
 		violations++
 		path := filepath.Join(verifDir, "out", "replays", fmt.Sprintf("%s-outside-%s.json", prop, sanitize(o)))
-		data, _ := json.MarshalIndent(map[string]interface{}{"property": prop, "obligation": "translate", "error": o}, "", " ")
+		rp := map[string]interface{}{"property": prop, "obligation": "translate", "error": o,
+			"explanation": "the function's code no longer matches its contract annotations (renamed variables, a loop without invariant, an unmodelled construct): its obligations cannot be generated, so the property is undecided for it; the public-API oracle is run to look for a concrete failing input"}
+		fname := o
+		if i := strings.Index(fname, ":"); i > 0 {
+			fname = fname[:i]
+		}
+		suffix := " no-failing-input-found"
+		fake := &Result{Ob: &Obligation{Name: fname + "/translate", Func: fname, Kind: "translate"}}
+		if replayCounterexample(prop, fake, rp, verifDir) {
+			suffix = ""
+		}
+		data, _ := json.MarshalIndent(rp, "", " ")
 		if len(path) > 200 {
 			path = path[:200] + ".json"
 		}
 		os.WriteFile(path, data, 0o644)
 		fmt.Printf("FAILED %s\n", o)
-		fmt.Printf("VIOLATION property=%s replay=%s no-failing-input-found\n", prop, path)
+		fmt.Printf("VIOLATION property=%s replay=%s%s\n", prop, path, suffix)
 	}
 	if total == 0 && len(outside) == 0 {
 		fmt.Println("ERROR: zero obligations generated")
